@@ -15,7 +15,7 @@ import deribit_lib as L
 from common import Ctx
 
 PROPERTY = "C15"
-LEAN_MODULES = ["Proofs.C15", "Proofs.C15.Seq", "Proofs.C15.Float", "Proofs.C15.Norm"]
+LEAN_MODULES = ["Proofs.C15", "Proofs.C15.Seq", "Proofs.C15.Float", "Proofs.C15.Norm", "Proofs.C15.Limit", "Proofs.C15.Sell", "Proofs.C15.Follow"]
 DRIVERS = ["driver_deribit"]
 RULE = ("random books (1-4 instruments, 0-12 levels a side, int and float sizes incl. emptied levels, prices on and off the 0.0005 grid, ETH and BTC "
         "steps; 30 % of the sides as rows in any order with price levels split over several rows; 30 % of the books with an instrument on a binary "
@@ -23,7 +23,9 @@ RULE = ("random books (1-4 instruments, 0-12 levels a side, int and float sizes 
         "reaching into the tie level; 15 % of the instruments priced 0.5-1.2 so that neighbouring levels lie within the 0.1 % limit window, limit "
         "amounts up to the sum of the window; half of the books handed over as the market's own data frame) and sequences of 1-8 buys/sells inside one "
         "bar with read-only calls (estimate_cost, check_transaction, get_market_balance) in between; buckets = (side, pricing mode market/limit-exact/limit-near/limit-edge/limit-usd "
-        "with or without mark cap, amount class, outcome class+cause, number of levels filled)")
+        "with or without mark cap, amount class, outcome class+cause, number of levels filled); every market order that follows a fill of the same side "
+        "in the bar is also bucketed by (side, beyond / within what the side showed at the start of the bar minus the fills since, outcome); directed: limit sells and "
+        "USD-priced limits rounding 6.5 -> 7, limits larger than their one level, second orders larger than the remainder")
 TRUSTED = ["float arithmetic of the order-book sizes is reproduced with Lean `Float` (IEEE binary64) in the driver; theorems treat book floats as reals "
            "(DCtx.ideal) and Decimal arithmetic as exact (NumCtx.exact)",
            "shortest float repr (Decimal(str(f))) is re-implemented in the model and compared on every dumped level"]
@@ -276,6 +278,45 @@ def oracle_trade(ctx, rig_token, S, op, out, res, S2, acts, rep, bar_tracker=Non
             bar_tracker[(mj["name"], key, f[0])] = bar_tracker.get((mj["name"], key, f[0]), Fraction(0)) + f[1]
 
 
+def oracle_following(ctx, token, orig, S, op, out, tracker, rep):
+    """fills shrink the visible book for the orders that follow: what a market order without a mark cap can still get in this bar is what the
+    side displayed when the bar began (one level per price) minus everything filled from it since -- judged on the book of the bar's start and
+    on the fills the implementation reported, not on the book it wrote back.  More than that must be refused (although it may fit the book as
+    it was); an order within it, on an open instrument, for at least one contract step (and, for a sell, within the holding) must not be refused
+    with DemeterError (InsufficientBalanceError is the cash check, not the book)."""
+    mj = L.op_json(op)
+    if mj["priceTok"] is not None or mj["priceUsd"] is not None or mj["mult"] is not None:
+        return
+    side = op["type"]
+    key = "asks" if side == "buy" else "bids"
+    i0 = find(orig, mj["name"])
+    if i0 is None or not i0["open"] or not S["flagOpen"]:
+        return
+    texp = L.TOKEN_STEP[token][0]
+    if mj["amount"] < Fraction(10) ** texp:
+        return
+    amt = round_step(mj["amount"], texp)
+    shown = sum((l[1] for l in norm_side(i0[key], side)), Fraction(0))
+    filled = sum((t for (nm, k, _), t in tracker.items() if nm == mj["name"] and k == key), Fraction(0))
+    left = shown - filled
+    slack = FTOL * max(shown, 1)
+    if filled == 0:
+        return                                  # a first order: the plain depth check, judged by oracle_trade
+    if amt > left + slack:
+        ctx.case(f"follow:{side}:beyond-remainder:{'fits-start-of-bar' if amt <= shown else 'beyond-start-of-bar'}:{out}")
+        if out == "ok":
+            ctx.violate(f"{side}.follow.beyond-remainder-accepted", f"{mj['name']} {key} showed {L.fmt(shown)} when the bar began, {L.fmt(filled)} were filled "
+                        f"since, yet a following market {side} of {L.fmt(amt)} (> {L.fmt(left)} left) was accepted", rep)
+    elif amt < left - slack:
+        held = {p["key"]: p["amount"] for p in S["positions"]}
+        if side == "sell" and not (mj["name"] in held and amt <= held[mj["name"]]):
+            return
+        ctx.case(f"follow:{side}:within-remainder:{out}")
+        if out == "DemeterError":
+            ctx.violate(f"{side}.follow.within-remainder-refused", f"{mj['name']} {key} showed {L.fmt(shown)} when the bar began, {L.fmt(filled)} were filled since, "
+                        f"yet a following market {side} of {L.fmt(amt)} (<= {L.fmt(left)} left) was refused", rep)
+
+
 def oracle_equity(ctx, token, S, bal, rep):
     fexp = L.TOKEN_STEP[token][1]
     prem = Fraction(0)
@@ -321,6 +362,7 @@ def run_sequence(ctx: Ctx, spec, reqs, oracle_only=False):
                             f"book cells of the data frame the visible book is refreshed from", srep)
             continue
         if op["type"] in ("buy", "sell"):
+            oracle_following(ctx, spec["token"], orig, S, op, out, tracker, srep)
             oracle_trade(ctx, spec["token"], S, op, out, res, S2, acts, srep, tracker)
             nfill = len(res["fills"]) if out == "ok" else 0
             ctx.case(f"{op['type']}:{tag}:{out}:{min(nfill, 4)}", {"op": L.canon(L.op_json(op)), "outcome": out} if out != "ok" or nfill > 1 else None)
@@ -416,6 +458,7 @@ def directed_specs():
     tie_a = copy.deepcopy(base)                                     # 2 x 0.03125 = 0.0625 exactly: the second ask sits on the cap
     tie_a[0].update({"mark": 0.03125, "asks": [[0.05, 3], [0.0625, 5], [0.07, 9]], "bids": [[0.03, 3], [0.015625, 5], [0.01, 2]]})
     pos10 = [{"name": base[0]["name"], "expiry": 30000, "strike": 1650, "kind": "CALL", "amount": "10"}]
+    pos1000 = [{"name": base[0]["name"], "expiry": 30000, "strike": 1650, "kind": "CALL", "amount": "1000"}]
     near = copy.deepcopy(base)                                      # two asks / bids within 0.1 % of one another
     near[0].update({"mark": 0.8, "asks": [[0.8, 3], [0.8005, 10], [0.81, 4]], "bids": [[0.7995, 3], [0.799, 10], [0.78, 4]]})
     one = copy.deepcopy(base)                                       # exactly one level a side
@@ -446,6 +489,16 @@ def directed_specs():
         mk(base, "1", [], [{"type": "buy", "name": n, "amount": 2, "priceTok": 0.029}, {"type": "buy", "name": n, "amount": 2, "priceTok": 0.029}]),
         mk(base, "1", [], [{"type": "buy", "name": n, "amount": 2, "priceUsd": 47.9}]),
         mk(base, "100", [], [{"type": "buy", "name": n, "amount": 700}, {"type": "buy", "name": n, "amount": 200}, {"type": "sell", "name": n, "amount": 900}]),
+        # limit orders, sell side and USD-priced: 6.5 contracts round to 7, one fill at the 0.028 bid / the 0.029 ask (47.9 $ and 46.25 $ / 1651.94)
+        mk(base, "100", pos10, [{"type": "sell", "name": n, "amount": Decimal("6.5"), "priceTok": 0.028}, {"type": "sell", "name": n, "amount": 2, "priceUsd": 46.25},
+                                 {"type": "buy", "name": n, "amount": Decimal("6.5"), "priceUsd": 47.9}, {"type": "sell", "name": n, "amount": 2, "priceTok": 0.0275}]),
+        # a limit order for more than its one level shows is refused (the next level is not used), on either side
+        mk(base, "100", pos1000, [{"type": "buy", "name": n, "amount": 6, "priceTok": 0.0285}, {"type": "sell", "name": n, "amount": 52, "priceTok": 0.028},
+                                   {"type": "sell", "name": n, "amount": 52, "priceUsd": 46.25}]),
+        # the order that follows sees the shrunken book: asks show 865, after 10 bought 860 do not fit any more (855 do); bids show 908,
+        # after 40 sold 880 do not fit any more (868 do)
+        mk(base, "100", [], [{"type": "buy", "name": n, "amount": 10}, {"type": "buy", "name": n, "amount": 860}, {"type": "buy", "name": n, "amount": 855}]),
+        mk(base, "100", pos1000, [{"type": "sell", "name": n, "amount": 40}, {"type": "sell", "name": n, "amount": 880}, {"type": "sell", "name": n, "amount": 868}]),
     ]
 
 
